@@ -213,7 +213,6 @@ func run(lab *atlab.Lab, t *trace.T, sc scenario, schema *atlab.Schema, style at
 		lab.Srv.ClearFaults()
 		return callErr
 	})
-	_ = xid
 	fired := lab.Srv.FaultsFired() > 0
 
 	// merge the two logs by the shared sequence counter
@@ -298,7 +297,14 @@ func run(lab *atlab.Lab, t *trace.T, sc scenario, schema *atlab.Schema, style at
 	t.Add("Return", "v", v, "sig", sig+":ret="+v)
 	// what is durable, and whether any connection is still inside a transaction
 	biz := lab.Srv.SnapshotHash(schema.Name) != snapBefore
-	undo := lab.UndoRows() > 0
+	// the undo log of THIS branch (a past transaction on the same pool may still be waiting for the asynchronous
+	// deletion of its own)
+	undo := false
+	for _, row := range lab.Srv.Snapshot("undo_log")["undo_log"] {
+		if fmt.Sprint(row["xid"]) == xid {
+			undo = true
+		}
+	}
 	t.Add("State", "biz", biz, "undo", undo, "intx", !lab.Idle(), "sig", sig+":ret="+v)
 }
 
